@@ -176,8 +176,18 @@ json CoreSnapshot(const RSCore& core, const rsModificationFacet* mods) {
   return out;
 }
 
+std::vector<EntityUID>& Gone();
+
 json FormSnapshot(const RSForm& form) {
   auto out = CoreSnapshot(form.Core(), &form.Mods());
+  // erased constituents must be gone from the tracking view as well
+  json goneTracked = json::array();
+  for (const auto uid : Gone()) {
+    if (!form.Contains(uid) && form.Mods().IsTracking(uid)) {
+      goneTracked.push_back(uid);
+    }
+  }
+  out["gone_tracked"] = goneTracked;
   out["title"] = drv::PutBytes(form.title);
   out["corehash"] = form.CoreHash();
   out["fullhash"] = form.FullHash();
@@ -234,7 +244,9 @@ EntityUID UidOf(const RSCore& core, const json& j) {
     if (Gone().empty()) {
       return 777;
     }
-    return Gone().at(static_cast<size_t>(j["gone"].get<long>()) % Gone().size());
+    const auto g = j["gone"].get<long>();   // negative: counted from the most recently erased
+    const auto n = static_cast<long>(Gone().size());
+    return Gone().at(static_cast<size_t>(((g % n) + n) % n));
   }
   throw std::runtime_error("harness: bad uid argument");
 }
@@ -368,6 +380,19 @@ DRV_OP(OpFormOp, "form.op") {
     Forms()[name] = std::make_unique<RSForm>(wrapper.data());
   } else {
     auto& form = *Forms().at(name);
+    // constituents that disappear inside an operation (duplicate elimination, equation) are remembered as erased too
+    std::vector<EntityUID> uidsBefore(form.Core().begin(), form.Core().end());
+    struct GoneRecorder {
+      const RSForm& form;
+      std::vector<EntityUID> before;
+      ~GoneRecorder() {
+        for (const auto uid : before) {
+          if (!form.Contains(uid) && std::find(Gone().begin(), Gone().end(), uid) == Gone().end()) {
+            Gone().push_back(uid);
+          }
+        }
+      }
+    } recorder{ form, std::move(uidsBefore) };
     if (CommonOp(form, k, a, out)) {
       // done
     } else if (k == "insertcopy_from") {
